@@ -1,0 +1,75 @@
+//go:build verif
+
+package turbotunnel
+
+// Machine-checked contracts (read by /verif/engine; comment-only, compiled only with -tags verif).
+//
+// Client map: representation invariant in two parts.
+//   cmIndex  index consistency: byAddr and byAge describe the same set of records (a bijection between addresses
+//            and heap indices), every record has an open send queue, and no two records share a queue.
+//   cmHeap   heap order on LastSeen, together with its consequence that the root is a least recently seen record
+//            (the consequence needs induction over the tree; it is only ever ASSUMED from container/heap's contract
+//            and from the empty heap, never proved by a function here).
+//@ default model int
+//@ pred cmIndex(inner *clientMapInner) = inner != nil && inner.byAddr != nil && len(inner.byAddr) == len(inner.byAge) && (forall i int :: 0 <= i && i < len(inner.byAge) ==> inner.byAge[i] != nil && allocated(inner.byAge[i]) && has(inner.byAddr, inner.byAge[i].Addr) && inner.byAddr[inner.byAge[i].Addr] == i && inner.byAge[i].SendQueue != nil && !closed(inner.byAge[i].SendQueue)) && (forall a net.Addr :: has(inner.byAddr, a) ==> 0 <= inner.byAddr[a] && inner.byAddr[a] < len(inner.byAge) && inner.byAge[inner.byAddr[a]].Addr == a) && (forall i int, j int :: 0 <= i && i < j && j < len(inner.byAge) ==> inner.byAge[i].SendQueue != inner.byAge[j].SendQueue)
+//@ pred cmHeap(inner *clientMapInner) = (forall i int :: 1 <= i && i < len(inner.byAge) ==> !(inner.byAge[i].LastSeen < inner.byAge[(i-1)/2].LastSeen)) && (forall i int :: 0 <= i && i < len(inner.byAge) ==> !(inner.byAge[i].LastSeen < inner.byAge[0].LastSeen))
+//
+// heap.Interface laws, proved for the real methods (container/heap's effects in the prelude are conditional on them).
+//@ func (inner *clientMapInner) Len() (r int)
+//@   props C17, C05
+//@   requires cmIndex(inner)
+//@   ensures r == len(inner.byAge)
+//
+//@ func (inner *clientMapInner) Less(i int, j int) (r bool)
+//@   props C17, C05
+//@   requires cmIndex(inner) && 0 <= i && i < len(inner.byAge) && 0 <= j && j < len(inner.byAge)
+//@   ensures r == (inner.byAge[i].LastSeen < inner.byAge[j].LastSeen)
+//
+//@ func (inner *clientMapInner) Swap(i int, j int)
+//@   props C17, C05
+//@   requires cmIndex(inner) && 0 <= i && i < len(inner.byAge) && 0 <= j && j < len(inner.byAge)
+//@   ensures cmIndex(inner) && len(inner.byAge) == old(len(inner.byAge))
+//@   ensures inner.byAge[i] == old(inner.byAge[j]) && inner.byAge[j] == old(inner.byAge[i])
+//@   ensures forall k int :: 0 <= k && k < len(inner.byAge) && k != i && k != j ==> inner.byAge[k] == old(inner.byAge[k])
+//
+//@ func (inner *clientMapInner) Push(x interface{})
+//@   props C17, C05
+//@   requires cmIndex(inner) && tagis(x, *clientRecord) && unbox(x, *clientRecord) != nil && allocated(unbox(x, *clientRecord)) && !has(inner.byAddr, unbox(x, *clientRecord).Addr)
+//@   requires unbox(x, *clientRecord).SendQueue != nil && !closed(unbox(x, *clientRecord).SendQueue)
+//@   requires forall i int :: 0 <= i && i < len(inner.byAge) ==> inner.byAge[i].SendQueue != unbox(x, *clientRecord).SendQueue
+//@   ensures cmIndex(inner) && len(inner.byAge) == old(len(inner.byAge)) + 1
+//@   ensures inner.byAge[old(len(inner.byAge))] == unbox(x, *clientRecord)
+//@   ensures forall k int :: 0 <= k && k < old(len(inner.byAge)) ==> inner.byAge[k] == old(inner.byAge[k])
+//
+//@ func (inner *clientMapInner) Pop() (x interface{})
+//@   props C17, C05
+//@   requires cmIndex(inner) && len(inner.byAge) > 0
+//@   ensures cmIndex(inner) && len(inner.byAge) == old(len(inner.byAge)) - 1
+//@   ensures tagis(x, *clientRecord) && unbox(x, *clientRecord) == old(inner.byAge[len(inner.byAge)-1])
+//@   ensures closed(unbox(x, *clientRecord).SendQueue) && closes(unbox(x, *clientRecord).SendQueue) == old(closes(unbox(x, *clientRecord).SendQueue)) + 1
+//@   ensures forall k int :: 0 <= k && k < len(inner.byAge) ==> inner.byAge[k] == old(inner.byAge[k])
+//
+// SendQueue: an existing record keeps its queue (same channel, contents untouched) and is refreshed;
+// an absent address gets a fresh open queue of capacity queueSize. Two addresses never share a queue.
+//@ func (inner *clientMapInner) SendQueue(addr net.Addr, now time.Time) (q chan []byte)
+//@   props C17, C05
+//@   requires cmIndex(inner) && cmHeap(inner)
+//@   ensures cmIndex(inner) && cmHeap(inner)
+//@   ensures {returns-this-address-queue} has(inner.byAddr, addr) && q == inner.byAge[inner.byAddr[addr]].SendQueue && q != nil && !closed(q)
+//@   ensures {refreshes-last-seen} inner.byAge[inner.byAddr[addr]].LastSeen == now
+//@   ensures {existing-keeps-its-queue} old(has(inner.byAddr, addr)) ==> q == old(inner.byAge[inner.byAddr[addr]].SendQueue) && inner.byAge[inner.byAddr[addr]] == old(inner.byAge[inner.byAddr[addr]])
+//@   ensures {new-gets-fresh-queue} !old(has(inner.byAddr, addr)) ==> fresh(q) && chancap(q) == queueSize
+//@   ensures {others-untouched} forall a net.Addr :: a != addr ==> (has(inner.byAddr, a) <==> old(has(inner.byAddr, a))) && (has(inner.byAddr, a) ==> inner.byAge[inner.byAddr[a]] == old(inner.byAge[inner.byAddr[a]]) && inner.byAge[inner.byAddr[a]].SendQueue == old(inner.byAge[inner.byAddr[a]].SendQueue) && inner.byAge[inner.byAddr[a]].LastSeen == old(inner.byAge[inner.byAddr[a]].LastSeen))
+//
+// removeExpired: never discards a record before it has been idle for the full timeout, and after the sweep no
+// record idle for the timeout or longer remains; removed queues are closed.
+//@ func (inner *clientMapInner) removeExpired(now time.Time, timeout time.Duration)
+//@   props C17
+//@   requires cmIndex(inner) && cmHeap(inner)
+//@   loop 1 invariant cmIndex(inner) && cmHeap(inner)
+//@   loop 1 invariant {only-expired-removed} forall a net.Addr :: old(has(inner.byAddr, a)) && !has(inner.byAddr, a) ==> now - old(inner.byAge[inner.byAddr[a]].LastSeen) >= timeout && closed(old(inner.byAge[inner.byAddr[a]].SendQueue))
+//@   loop 1 invariant {kept-records-unchanged} forall a net.Addr :: has(inner.byAddr, a) ==> old(has(inner.byAddr, a)) && inner.byAge[inner.byAddr[a]] == old(inner.byAge[inner.byAddr[a]])
+//@   ensures cmIndex(inner) && cmHeap(inner)
+//@   ensures {never-early} forall a net.Addr :: old(has(inner.byAddr, a)) && !has(inner.byAddr, a) ==> now - old(inner.byAge[inner.byAddr[a]].LastSeen) >= timeout && closed(old(inner.byAge[inner.byAddr[a]].SendQueue))
+//@   ensures {none-stale-left} forall a net.Addr :: has(inner.byAddr, a) ==> now - inner.byAge[inner.byAddr[a]].LastSeen < timeout
+//@   ensures {kept-records-unchanged} forall a net.Addr :: has(inner.byAddr, a) ==> old(has(inner.byAddr, a)) && inner.byAge[inner.byAddr[a]] == old(inner.byAge[inner.byAddr[a]])
